@@ -1,5 +1,5 @@
 (* FSolveEdge.v — the edges of FortranEngine.solve_t: where it rejects exactly as BaseModel.solve_t does, and where the two
-   differ for EVERY model and store (the known findings as general theorems, not just witnesses). *)
+   agree on rejections that used to differ (fixes 1354783, 131915c). *)
 From Coq Require Import ZArith List Bool Lia ZifyBool.
 Import ListNotations.
 Require Import PyBase Solver SolverFacts FSem FSolve FSolveFacts FSolveSim.
@@ -38,7 +38,7 @@ Section Edge.
   Proof.
     intros Hmm Hinv Hp Hfeas Hoff Hout. split; [|apply (offset_out_of_span_rejected num sub absf ltb isfin zero ev before after d o t s p); auto].
     destruct (w_ec_valid num o Hinv) as (ec & Hec & _).
-    unfold FSolve.w_solve_t. replace (max_iter o <? min_iter o) with false by lia. rewrite Hec, Hp.
+    unfold FSolve.w_solve_t. replace (max_iter o <? min_iter o) with false by lia. rewrite Hec, Hp, Hfeas. cbn [negb].
     replace (offset o =? 0) with false by lia.
     destruct (Z.of_nat p + offset o <? 0) eqn:E1; [reflexivity|].
     replace (Z.of_nat (length (status s)) <=? Z.of_nat p + offset o) with true by lia. reflexivity.
@@ -65,64 +65,42 @@ Section Edge.
       replace (Z.of_nat (length (status s)) <=? Z.of_nat p + offset o) with false by lia. reflexivity. }
     split.
     - unfold FSolve.w_solve_t. replace (max_iter o <? min_iter o) with false by lia. rewrite Her.
-      change (w_ec ERaise) with (Some 0). cbv iota. rewrite Hp. cbv zeta. rewrite Hpre, Hnf. reflexivity.
+      change (w_ec ERaise) with (Some 0). cbv iota. rewrite Hp, Hfeas. cbn [negb]. cbv zeta. rewrite Hpre, Hnf. reflexivity.
     - unfold Solver.solve_t_M. replace (max_iter o <? min_iter o) with false by lia. rewrite Hp, Hfeas. cbn [negb]. cbv zeta.
       rewrite Hpre, Hnf, Her. reflexivity.
   Qed.
 
-  (* ---- they differ: a period without room for the lags / leads (finding #6) ---- *)
-  Theorem infeasible_period_differs fm d o t s p n m :
-    shape n m (vals_of s) -> length (status s) = n -> (0 < m)%nat ->
-    fm_lags fm = Z.of_nat (lags d) -> fm_leads fm = Z.of_nat (leads d) ->
+  (* ---- a period without room for the lags / leads: IndexError from both, nothing changes (holds since fix 1354783; before,
+     FortranEngine.solve_t raised FortranEngineError after copying the offset values) ---- *)
+  Theorem both_reject_infeasible fm d o t s p :
     min_iter o <= max_iter o -> errors o <> EInvalid ->
-    py_pos n t = Some p -> feasible d n p = false ->
-    (offset o = 0 \/ 0 <= Z.of_nat p + offset o < Z.of_nat n) ->
-    is_raise (errors o) && negb (all_finite (get_check d (seeded d o (vals_of s) p) p)) = false ->
-    w_solve_t fm d o t s = (setvals num s (seeded d o (vals_of s) p), Raise FortranEngineError) /\
-    solve_t_M d o t s = (s, Raise IndexError).
+    py_pos (length (status s)) t = Some p -> feasible d (length (status s)) p = false ->
+    w_solve_t fm d o t s = (s, Raise IndexError) /\ solve_t_M d o t s = (s, Raise IndexError).
   Proof.
-    intros Hs Hlen Hm Hfl Hfd Hmm Hinv Hp Hfeas Hoff Hnf.
-    pose proof (py_pos_lt _ _ _ Hp) as Hpn.
-    split.
+    intros Hmm Hinv Hp Hfeas. split.
     - destruct (w_ec_valid num o Hinv) as (ec & Hec & _).
-      assert (Hpre : (if offset o =? 0 then @inl vals exn (vals_of s)
-                      else if Z.of_nat p + offset o <? 0 then inr IndexError
-                           else if Z.of_nat n <=? Z.of_nat p + offset o then inr IndexError
-                                else inl (copy_endo num zero d (vals_of s) p (Z.to_nat (Z.of_nat p + offset o))))
-                     = inl (seeded d o (vals_of s) p)).
-      { unfold FSolveSim.seeded. destruct (offset o =? 0) eqn:Eo; [reflexivity|].
-        replace (Z.of_nat p + offset o <? 0) with false by lia.
-        replace (Z.of_nat n <=? Z.of_nat p + offset o) with false by lia. reflexivity. }
-      unfold FSolve.w_solve_t. replace (max_iter o <? min_iter o) with false by lia. rewrite Hec, Hlen, Hp. cbv zeta.
-      rewrite Hpre, Hnf.
-      set (v0 := seeded d o (vals_of s) p).
-      assert (Hs0 : shape n m v0) by (apply seeded_shape; exact Hs).
-      assert (Hts : t_solve_t fm v0 (t + 1) (min_iter o) (max_iter o) (tol o) (offset o) (cv_of d) ec
-                    = mkFout v0 false undef_iter (if (p <? lags d)%nat then c_lags else c_leads)).
-      { unfold FSolve.t_solve_t. rewrite (shape_ncols num n m v0 Hs0 Hm), (t_index_pos n t p Hp).
-        rewrite (t_guard_feasible fm d n p Hfl Hfd Hpn), Hfeas.
-        destruct (p <? lags d)%nat; reflexivity. }
-      rewrite Hts. cbn [fo_code fo_vals fo_conv fo_iter].
-      destruct (p <? lags d)%nat; reflexivity.
-    - unfold Solver.solve_t_M. replace (max_iter o <? min_iter o) with false by lia. rewrite Hlen, Hp, Hfeas. reflexivity.
+      unfold FSolve.w_solve_t. replace (max_iter o <? min_iter o) with false by lia. rewrite Hec, Hp, Hfeas. reflexivity.
+    - unfold Solver.solve_t_M. replace (max_iter o <? min_iter o) with false by lia. rewrite Hp, Hfeas. reflexivity.
   Qed.
 
-  (* ---- they differ: max_iter = 0 ---- *)
-  Theorem max_iter_zero_differs fm d o t s p n m :
+  (* ---- max_iter < 1: no pass runs; 'F' with 0 iterations from both, NonConvergenceError under failures='raise' (holds since fix
+     131915c; before, the template's error_code kept its initial -1 and the wrapper raised FortranEngineError) ---- *)
+  Theorem max_iter_zero_agree fm d o t s p n m :
     shape n m (vals_of s) -> length (status s) = n -> (0 < m)%nat ->
     rows_ok m (check d) -> rows_ok m (endo d) ->
     fm_endo fm = endo_nums d -> fm_lags fm = Z.of_nat (lags d) -> fm_leads fm = Z.of_nat (leads d) ->
-    min_iter o <= max_iter o -> max_iter o = 0 -> errors o <> EInvalid ->
+    min_iter o <= max_iter o -> max_iter o <= 0 -> errors o <> EInvalid ->
     py_pos n t = Some p -> feasible d n p = true ->
     (offset o = 0 \/ 0 <= Z.of_nat p + offset o < Z.of_nat n) ->
     is_raise (errors o) && negb (all_finite (get_check d (seeded d o (vals_of s) p) p)) = false ->
     (forall em cf k v, before t em cf k v = (v, None)) ->
-    w_solve_t fm d o t s = (setvals num s (seeded d o (vals_of s) p), Raise FortranEngineError) /\
+    let out := if fail_raise o then Raise NonConvergenceError else Ret false in
+    w_solve_t fm d o t s =
+      (mkState (seeded d o (vals_of s) p) (upd p Failed (status s)) (upd p 0 (iters s)) (log s), out) /\
     solve_t_M d o t s =
-      (mkState (seeded d o (vals_of s) p) (upd p Failed (status s)) (upd p 0 (iters s)) (log s ++ [EvBefore t]),
-       if fail_raise o then Raise NonConvergenceError else Ret false).
+      (mkState (seeded d o (vals_of s) p) (upd p Failed (status s)) (upd p 0 (iters s)) (log s ++ [EvBefore t]), out).
   Proof.
-    intros Hs Hlen Hm Hchk Hend Hfe Hfl Hfd Hmm Hmax Hinv Hp Hfeas Hoff Hnf Hbef.
+    intros Hs Hlen Hm Hchk Hend Hfe Hfl Hfd Hmm Hmax Hinv Hp Hfeas Hoff Hnf Hbef out.
     pose proof (py_pos_lt _ _ _ Hp) as Hpn.
     set (v0 := seeded d o (vals_of s) p) in *.
     assert (Hs0 : shape n m v0) by (apply seeded_shape; exact Hs).
@@ -134,18 +112,21 @@ Section Edge.
     { unfold v0, FSolveSim.seeded. destruct (offset o =? 0) eqn:Eo; [reflexivity|].
       replace (Z.of_nat p + offset o <? 0) with false by lia.
       replace (Z.of_nat n <=? Z.of_nat p + offset o) with false by lia. reflexivity. }
+    assert (HN : Z.to_nat (max_iter o) = 0%nat) by lia.
     split.
     - destruct (w_ec_valid num o Hinv) as (ec & Hec & Hecr).
       assert (Hg : t_guard fm (Z.of_nat n) (Z.of_nat p + 1) = 0).
       { rewrite (t_guard_feasible fm d n p Hfl Hfd Hpn), Hfeas. reflexivity. }
-      unfold FSolve.w_solve_t. replace (max_iter o <? min_iter o) with false by lia. rewrite Hec, Hlen, Hp. cbv zeta.
+      unfold FSolve.w_solve_t. replace (max_iter o <? min_iter o) with false by lia. rewrite Hec, Hlen, Hp, Hfeas. cbn [negb]. cbv zeta.
       rewrite Hpre, Hnf.
       rewrite (t_solve_t_spec num sub absf ltb isfin zero evf fm d o (t + 1) p n m ec v0 Hs0 Hm Hpn Hchk Hend Hfe
                  (t_index_pos n t p Hp) Hg Hoff).
       replace (seeded d o v0 p) with v0 by (symmetry; apply (seeded_idem num zero n m d o (vals_of s) p Hs Hpn Hend Hoff)).
-      rewrite Hecr, Hnf, Hmax. cbn [Z.to_nat FSolve.t_loop fo_code fo_vals fo_conv fo_iter]. reflexivity.
+      rewrite Hecr, Hnf, HN. cbn [FSolve.t_loop fo_code fo_vals fo_conv fo_iter].
+      destruct wrapper_codes as (W0 & _). rewrite W0. change (0 =? 0) with true. cbv iota. cbn [st_eqb andb].
+      unfold stampz, out. change (1 - 1) with 0. destruct (fail_raise o); reflexivity.
     - unfold Solver.solve_t_M. replace (max_iter o <? min_iter o) with false by lia. rewrite Hlen, Hp, Hfeas. cbn [negb]. cbv zeta.
-      rewrite Hpre, Hnf, Hbef, Hmax. cbn [Z.to_nat Solver.loop Solver.finish Nat.sub st_eqb andb stamp Z.of_nat].
-      destruct (fail_raise o); reflexivity.
+      rewrite Hpre, Hnf, Hbef, HN. cbn [Solver.loop Solver.finish Nat.sub st_eqb andb stamp Z.of_nat].
+      unfold out. destruct (fail_raise o); reflexivity.
   Qed.
 End Edge.
